@@ -57,3 +57,21 @@ Print Assumptions lr_total.
 Example lr_no_panic_nonvacuous :
   safe_b C02.ex_g C02.ex_T = true /\ reduce_acyclic_b C02.ex_g C02.ex_T = true.
 Proof. vm_compute. split; reflexivity. Qed.
+
+(* ------------------------------------------------------------------ *)
+(* GLR side at the level of the TABLE (Model/NLR.v): for every multi-action
+   right-nulled table passing [safe_rn_b] (evaluated on the REAL LALR_RN tables,
+   gen/c15.py), from any configuration a run of the nondeterministic machine can
+   reach, NO action of the cell panics (stack underflow, undefined goto, builder
+   underflow, empty result, nullable tail without an empty derivation).
+   NOT proved: the graph-structured-stack code of glr/parser.rs itself (decided by
+   the real parser under catch_unwind + watchdog on garbage input). *)
+From RV Require Import Model.NLR Spec.ValidatorsRN Proofs.ViableRN Proofs.SafeRN.
+
+Theorem nlr_no_panic : forall g T partial w c s stk a real act n,
+  wf_grammar_b g = true -> safe_rn_b g T = true ->
+  nreach g T partial (init 0 w) c ->
+  c_stk c = s :: stk -> next_tok T partial s (c_inp c) = Tok a real ->
+  In act (cell T s a) -> act_step g T c a real act <> Done (Panic n).
+Proof. exact nlr_no_panic_top. Qed.
+Print Assumptions nlr_no_panic.
